@@ -563,6 +563,7 @@ type Caps struct {
 	ChoiceDefaults bool     // choices may name a default case
 	Embeds         bool     // struct-backed nodeutil.Node: some fields are promoted from an embedded struct
 	ConvSlices     bool     // some int32 leaf-lists are []int64 fields
+	TypedMaps      bool     // a container whose leaves all have one scalar type is held in a Go map of that element type
 	Groupings      bool     // some sibling containers share one grouping (refined defaults, augmented cases)
 	KeyTypes       []string // further key leaf types (besides string and, with IntKeys, int32)
 	NoPlainLeaves  bool     // leaves only as list keys (a store that cannot tell a zero scalar from an unset one and does not ignore zeros)
@@ -860,6 +861,20 @@ func Generate(r *kit.Rng, caps Caps, name string, mustChoice, mustList bool) *No
 				c.Children = append(c.Children, g.deepChoice(g.r.Range(3, 4)))
 			}
 			m.Children = append(m.Children, c)
+			if caps.TypedMaps && g.r.Chance(1, 2) {
+				// a container of leaves of one scalar type only (held in a typed Go map, where
+				// false, 0 and "" are values like any other), the leaves being cases of a choice
+				t := g.r.Pick([]string{"boolean", "int32", "string"})
+				tc := &Node{Kind: Container, Name: g.name("c")}
+				ch := &Node{Kind: Choice, Name: g.name("ch")}
+				for i := 0; i < g.r.Range(2, 3); i++ {
+					l := &Node{Kind: Leaf, Name: g.name("f"), Type: t}
+					ch.Children = append(ch.Children, &Node{Kind: Case, Name: l.Name, Shorthand: true, Children: []*Node{l}})
+				}
+				tc.Children = append(tc.Children, &Node{Kind: Leaf, Name: g.name("f"), Type: t}, ch)
+				g.n += 4
+				m.Children = append(m.Children, tc)
+			}
 			if g.r.Chance(1, 2) {
 				l := g.list(1)
 				l.Children = append(l.Children, g.choice(2, true))
